@@ -236,6 +236,24 @@ impl LruManager {
             crate::StorageError::Cache(format!("invalid LRU file: {}", path.display()))
         })?;
 
+        // An entry is in use when it is on the linked list. The key bytes
+        // cannot tell: nine zero bytes are a valid key. Walking the list also
+        // rejects files whose links point outside the table or form a cycle.
+        let mut in_use = vec![false; entries.len()];
+        let mut idx = header.lru_tail;
+        while idx != LRU_SENTINEL {
+            match in_use.get_mut(idx as usize) {
+                Some(seen) if !*seen => *seen = true,
+                _ => {
+                    return Err(crate::StorageError::Cache(format!(
+                        "invalid LRU file (broken entry list): {}",
+                        path.display()
+                    )));
+                }
+            }
+            idx = entries[idx as usize].next;
+        }
+
         // Rebuild the key map and free list
         self.header = header;
         self.key_map.clear();
@@ -245,7 +263,7 @@ impl LruManager {
         self.entries = entries;
 
         for (i, entry) in self.entries.iter().enumerate() {
-            if entry.is_active() {
+            if in_use[i] {
                 self.key_map.insert(entry.ekey, i as u32);
             } else {
                 self.free_list.push(i as u32);
@@ -366,9 +384,7 @@ impl LruManager {
         let mut idx = self.header.lru_tail;
         while idx != LRU_SENTINEL {
             let entry = &self.entries[idx as usize];
-            if entry.is_active() {
-                callback(&entry.ekey);
-            }
+            callback(&entry.ekey);
             idx = entry.next;
         }
     }
